@@ -28,9 +28,10 @@ from pfimport import exc_enum
 from pipefunc.cache import DiskCache, HybridCache, LRUCache, SimpleCache
 
 PID = "C14"
-PROPS = ["PfModel.Props.C14", "PfModel.Props.C14Shared", "PfModel.Props.C14Score"]
+PROPS = ["PfModel.Props.C14", "PfModel.Props.C14Shared", "PfModel.Props.C14Score", "PfModel.Props.C14Clear", "PfModel.Props.C14Ties",
+         "PfModel.Props.C14Access"]
 DRIVER = "C14"
-RULE = ("(1) explicit-state exploration: breadth-first over the abstract states of a Python transcription of the policies (used "
+RULE = ("(1) explicit-state exploration: breadth-first over the abstract states of the Lean model itself (driver C14Explore; used "
         "only to find a shortest history to every reachable state, never for a verdict), 3-4 keys, max_size 1..3; every "
         "transition of every reachable state becomes a case 'shortest history + operation', executed on the real cache with "
         "presence of all keys, len and the cache mapping probed after every step; (2) seeded random histories of length <= 40 "
@@ -46,6 +47,14 @@ RULE = ("(1) explicit-state exploration: breadth-first over the abstract states 
         "within the budget, hot pairs (evicting or clearing peer against get/put) first; (6) schedules of the Lean process model "
         "(PF.Cache.Shared.exec) whose linearisation is replayed on the real cache from the processes the model names; (7) every fourth "
         "put stores a falsy value (0, '', None, (), False, 0.0, b''); exploration cases end with a drain of max_size fresh puts. "
+        "(8) clear-resets stream: a populating history H (hits, re-puts, reopens for DiskCache), clear(), a continuation E that fills the cache "
+        "beyond max_size — run on the real cache and, side by side, E alone on a NEWLY constructed cache (for DiskCache: new directory, the "
+        "max_size / LRU size in force after H as the Lean driver reports them); both are compared step by step with the driver entry "
+        "cache.clear_fresh (which re-evaluates C14_clear_resets_*) and with each other, and right after clear() the public views of every "
+        "piece of state (cache, access_counts, computation_durations, lru_cache.cache, the directory listing) must be empty; "
+        "(10) accesses stream: the container accesses LRUCache makes inside its lock for every operation after set-up and random histories "
+        "(proxies of c14_preempt.py, non-shared and manager-backed) against the labelled micro-steps of lruBody (cache.accesses); "
+        "(9) max_size=0 for HybridCache / DiskCache (accepted by the constructors) against C14_hybrid_never_raises_iff / C14_disk_max0. "
         "A case is non-trivial when it contains a put that evicts or re-puts a resident key, or a hit (preemption: an evicting/clearing "
         "peer against a get/put); distinct by its JSON")
 ASSUMPTIONS = [
@@ -59,8 +68,9 @@ ASSUMPTIONS = [
     "DiskCache from several processes: only the shared in-memory LRU is instrumented; file-system steps (exists/open/stat/unlink/glob) "
     "are not preemption points. Not promised and not checked: concurrent writers of one file, a reader racing an unlink "
     "(KF-C14-disk-put-not-atomic records the put/clear window that the LRU points do expose)",
-    "HybridCache scores are exact rationals in the model and floats in the code: an eviction whose two lowest scores are closer "
-    "than 1e-9 relative without being computed from identical (count, duration) pairs ends the comparison of that case (counted)",
+    "HybridCache scores are exact rationals in the model and floats in the code: an eviction in which another entry has the victim's "
+    "exact score without being computed from identical (count, duration) pairs (Hyb.floatAmbiguous, decided by the driver) ends the "
+    "comparison of that case (counted); distinct exact scores of the small counts/durations generated differ by far more than float rounding",
     "DiskCache 'oldest file' is st_ctime_ns order; the harness spaces file writes until a probe file's ctime has advanced "
     "(granularity measured at start-up and reported), so that 'oldest' is unambiguous; the model uses a logical clock",
     "values are ('v', n) tuples or one of the falsy values 0, '', None, (), False, 0.0, b''; a stored None is legal (`in` says present, get "
@@ -326,6 +336,7 @@ def run_impl(env: Env, case):
         last_put = {}
         max_size = case.get("max")
         present_before = []
+        disk_bounded = True
         for i, op in enumerate(case["ops"]):
             if op[0] == "reopen":
                 try:
@@ -362,7 +373,13 @@ def run_impl(env: Env, case):
                 last_put[op[1]] = op[2]
                 if op[1] not in pr["present"]:
                     bad.append(f"step {i}: key {op[1]} is absent right after it was put")
-            if max_size is not None and kind != "simple" and (kind != "disk" or op[0] == "put") and pr["len"] > max_size:
+            # DiskCache (C14_disk_len_le_history / C14_disk_len_le_after_put): a reopen with a smaller max_size may find more files than that;
+            # from the next put on — and from the start on a new directory — len <= max_size after EVERY operation
+            if op[0] == "reopen":
+                disk_bounded = False
+            elif op[0] == "put":
+                disk_bounded = True
+            if max_size is not None and kind != "simple" and (kind != "disk" or disk_bounded) and pr["len"] > max_size:
                 bad.append(f"step {i}: len {pr['len']} exceeds max_size {max_size}")
             if op[0] == "get":
                 was = op[1] in present_before
@@ -399,86 +416,11 @@ def run_impl(env: Env, case):
 
 
 # ------------------------------------------------------------------------------------------------ reference for exploration
-# A transcription of the policies on *abstract* states (keys only), used solely to enumerate reachable states and a shortest
-# history to each.  Verdicts never depend on it: every case is compared with the Lean model and with the property clauses.
-def ref_lru_put(q, k, mx):
-    q = [x for x in q if x != k] + [k]
-    return tuple(q[-mx:])
-
-
-def ref_step(kind, st, op):
-    if kind == "lru":
-        mx, q = st
-        if op[0] == "put":
-            return (mx, ref_lru_put(q, op[1], mx))
-        if op[0] == "get":
-            return (mx, tuple([x for x in q if x != op[1]] + [op[1]]) if op[1] in q else q)
-        return (mx, ())
-    if kind == "simple":
-        if op[0] == "put":
-            return tuple(sorted(set(st) | {op[1]}))
-        return st if op[0] == "get" else ()
-    if kind == "hybrid":
-        mx, w, tab = st                      # tab: tuple of (k, ac, du) in insertion order
-        tab = list(tab)
-        if op[0] == "put":
-            if len(tab) >= mx:
-                ta, td = sum(t[1] for t in tab), sum(t[2] for t in tab)
-                sc = [(w[0] * a * td + w[1] * d * ta) if td else w[0] * a for _, a, d in tab]
-                tab.pop(sc.index(min(sc)))
-            for j, t in enumerate(tab):
-                if t[0] == op[1]:
-                    tab[j] = (op[1], 1, op[3])
-                    break
-            else:
-                tab.append((op[1], 1, op[3]))
-            return (mx, w, tuple(tab))
-        if op[0] == "get":
-            return (mx, w, tuple((k, a + 1, d) if k == op[1] else (k, a, d) for k, a, d in tab))
-        return (mx, w, ())
-    if kind == "disk":
-        mx, lsz, files, lq = st              # files: keys oldest first; lq: lru queue or None
-        if op[0] == "put":
-            files = tuple([x for x in files if x != op[1]] + [op[1]])
-            if mx is not None and len(files) > mx:
-                files = files[len(files) - mx:]
-            return (mx, lsz, files, None if lq is None else ref_lru_put(lq, op[1], lsz))
-        if op[0] == "get":
-            if lq is not None and op[1] in lq:
-                return (mx, lsz, files, tuple([x for x in lq if x != op[1]] + [op[1]]))
-            if lq is not None and op[1] in files:
-                return (mx, lsz, files, ref_lru_put(lq, op[1], lsz))
-            return st
-        if op[0] == "clear":
-            return (mx, lsz, (), None if lq is None else ())
-        if op[0] == "reopen":
-            return (op[1], op[2], files, None if op[2] is None else ())
-    raise AssertionError((kind, op))
-
-
-def explore(kind, init, ops, depth, limit):
-    """breadth-first: {state: shortest history}; returns the list of histories 'path + op' for every transition found"""
-    seen = {init: []}
-    frontier = [init]
-    cases = []
-    for _ in range(depth):
-        nxt = []
-        for st in frontier:
-            for op in ops:
-                h = seen[st] + [op]
-                cases.append(h)
-                if len(cases) >= limit:
-                    return cases, len(seen)
-                st2 = ref_step(kind, st, op)
-                if st2 not in seen:
-                    seen[st2] = h
-                    nxt.append(st2)
-        frontier = nxt
-        if not frontier:
-            break
-    return cases, len(seen)
-
-
+# The reachable abstract states (keys only) and a shortest history to each are enumerated by the Lean model itself: the driver
+# lean/Driver/C14Explore.lean (`cache.explore`) runs a breadth-first search over `PF.Cache.{LRU,Hyb,Simple,Disk}.step` and returns
+# 'shortest history + operation' for every transition found (level by level, states in discovery order, operations in the order
+# given, at most `limit` histories).  There is no Python copy of the policies.  Verdicts never depend on the exploration: every
+# case is compared with the Lean model and with the property clauses.
 def concretise(history):
     """give every put a fresh value number (so 'the value most recently put' is identifiable)"""
     out, n = [], 100
@@ -491,36 +433,45 @@ def concretise(history):
     return out
 
 
-def exploration_cases(ctx):
-    thorough = ctx.tier == "thorough"
-    cases = []
+def exploration_plan(thorough):
+    """the explorations of a tier: (arguments of `cache.explore`, name of the state counter, history -> case)"""
+    plan = []
     nk = 4
     basic = [("put", k, 0, 0) for k in range(nk)] + [("get", k) for k in range(nk)] + [("clear",)]
     for mx in (1, 2, 3):
-        hs, n = explore("lru", (mx, ()), basic, 8 if thorough else 6, 100000)
-        ctx.count(f"explore:lru:max{mx}:states", n)
         # every case ends with a drain — max_size puts of fresh keys, presence probed after each — so that the recency ORDER the
         # last operation left behind (not observable through `in`/len) decides observable evictions
         drain = [("put", 4 + j, 0, 0) for j in range(mx)]
-        cases += [{"kind": "lru", "max": mx, "keys": list(range(nk + mx)), "ops": concretise(h + drain), "src": "explore"} for h in hs]
-    hs, n = explore("simple", (), [("put", k, 0, 0) for k in range(3)] + [("get", k) for k in range(3)] + [("clear",)], 4, 1000)
-    ctx.count("explore:simple:states", n)
-    cases += [{"kind": "simple", "max": None, "keys": [0, 1, 2], "ops": concretise(h), "src": "explore"} for h in hs]
+        plan.append(({"kind": "lru", "max": mx, "ops": basic, "depth": 8 if thorough else 6, "limit": 100000}, f"explore:lru:max{mx}:states",
+                     lambda h, mx=mx, drain=drain: {"kind": "lru", "max": mx, "keys": list(range(nk + mx)), "ops": concretise(h + drain), "src": "explore"}))
+    plan.append(({"kind": "simple", "max": None, "ops": [("put", k, 0, 0) for k in range(3)] + [("get", k) for k in range(3)] + [("clear",)],
+                  "depth": 4, "limit": 1000}, "explore:simple:states",
+                 lambda h: {"kind": "simple", "max": None, "keys": [0, 1, 2], "ops": concretise(h), "src": "explore"}))
     for mx in (1, 2, 3):
         for w in ((1, 1), (1, 3)) if not thorough else WEIGHTS:
             ops = [("put", k, 0, d) for k in range(3) for d in (1, 2)] + [("get", k) for k in range(3)] + [("clear",)]
-            hs, n = explore("hybrid", (mx, w, ()), ops, 5 if thorough else 4, 6000 if thorough else 260)
-            ctx.count(f"explore:hybrid:max{mx}:states", n)
             drain = [("put", 4 + j, 0, 1 + j) for j in range(mx)]       # the scores the last operation left behind decide these evictions
-            cases += [{"kind": "hybrid", "max": mx, "weights": list(w), "keys": [0, 1, 2] + [4 + j for j in range(mx)], "ops": concretise(h + drain),
-                       "src": "explore"} for h in hs]
+            plan.append(({"kind": "hybrid", "max": mx, "weights": list(w), "ops": ops, "depth": 5 if thorough else 4, "limit": 6000 if thorough else 260},
+                         f"explore:hybrid:max{mx}:states",
+                         lambda h, mx=mx, w=w, drain=drain: {"kind": "hybrid", "max": mx, "weights": list(w), "keys": [0, 1, 2] + [4 + j for j in range(mx)],
+                                                             "ops": concretise(h + drain), "src": "explore"}))
     for mx in (1, 2):
         for lsz in (None, 1, 2):
             ops = ([("put", k, 0, 0) for k in range(3)] + [("get", k) for k in range(3)] + [("clear",), ("reopen", mx, lsz)]
                    + ([("reopen", 1, lsz)] if mx != 1 else []) + [("reopen", None, lsz)])
-            hs, n = explore("disk", (mx, lsz, (), None if lsz is None else ()), ops, 6 if thorough else 4, 4000 if thorough else 170)
-            ctx.count(f"explore:disk:max{mx}:lru{lsz}:states", n)
-            cases += [{"kind": "disk", "max": mx, "lru": lsz, "keys": [0, 1, 2], "ops": concretise(h), "src": "explore"} for h in hs]
+            plan.append(({"kind": "disk", "max": mx, "lru": lsz, "ops": ops, "depth": 6 if thorough else 4, "limit": 4000 if thorough else 170},
+                         f"explore:disk:max{mx}:lru{lsz}:states",
+                         lambda h, mx=mx, lsz=lsz: {"kind": "disk", "max": mx, "lru": lsz, "keys": [0, 1, 2], "ops": concretise(h), "src": "explore"}))
+    return plan
+
+
+def exploration_cases(ctx):
+    plan = exploration_plan(ctx.tier == "thorough")
+    res = ctx.lean([{"m": "cache.explore", "a": a} for a, _, _ in plan], driver="C14Explore")       # one call: the model explores itself
+    cases = []
+    for (_, counter, mk), r in zip(plan, res):
+        ctx.count(counter, r["r"]["states"])
+        cases += [mk([tuple(op) for op in h]) for h in r["r"]["histories"]]
     return cases
 
 
@@ -583,39 +534,24 @@ def to_request(case):
 
 
 def near_tie(case, msteps, i):
-    """the eviction performed by put number i was decided between scores too close for floats (see ASSUMPTIONS)"""
+    """the eviction performed by put number i hinges on floating-point rounding (see ASSUMPTIONS): decided by the model
+    (`Hyb.floatAmbiguous`, theorems C14_hybrid_unambiguous_strict / C14_hybrid_ambiguous_iff), only read here"""
     if case["kind"] != "hybrid" or case["ops"][i][0] != "put" or i == 0:
         return False
-    st = msteps[i - 1]["state"]
-    if len(st["dict"]) < case["max"]:
-        return False
-    sc = st["scores"]
-    ac, du = dict(map(tuple, st["ac"])), dict(map(tuple, st["du"]))
-    wa, wd = case["weights"]
-    td = sum(du.values())
-    kmin, smin = min(sc, key=lambda p: p[1])
-    for k, s in sc:
-        if k == kmin:
-            continue
-        same = (ac[k] == ac[kmin] or wa == 0) and (du[k] == du[kmin] or wd == 0 or td == 0)
-        if not same and abs(s - smin) <= 1e-9 * max(s, smin, 1):
-            return True
-    return False
+    return bool(msteps[i - 1]["state"]["amb"])
 
 
 def hybrid_tie_order(case, msteps, i, impl_step):
-    """the implementation evicted a different entry than the model, but one whose exact score is also the minimum: the property
-    ('lowest score leaves') holds, only the model's tie-break (first in insertion order, as `min` over a dict) differs"""
+    """the implementation evicted a different entry than the model, but one of the entries the model lists as sharing the minimal
+    exact score (`Hyb.minKeys`, theorem C14_hybrid_minKeys_spec): the property ('lowest score leaves') holds, only the model's
+    tie-break (first in insertion order, as `min` over a dict) differs"""
     if case["kind"] != "hybrid" or case["ops"][i][0] != "put" or i == 0 or "present" not in impl_step:
         return False
     before = msteps[i - 1]
     gone = [k for k in before["present"] if k not in impl_step["present"] and k != case["ops"][i][1]]
-    sc = dict(map(tuple, before["state"]["scores"]))
-    if set(before["present"]) != set(sc):
-        return False
     if case["ops"][i][1] in before["present"] and case["ops"][i][1] not in gone and len(impl_step["present"]) == len(before["present"]):
         gone = gone or [case["ops"][i][1]]          # the re-put key itself was the one expired and stored again
-    return len(gone) == 1 and sc[gone[0]] == min(sc.values())
+    return len(gone) == 1 and gone[0] in before["state"]["min_keys"]
 
 
 def branches(ctx, case, msteps):
@@ -643,6 +579,8 @@ def branches(ctx, case, msteps):
             if kind == "disk" and hit and before["state"] is not None and before["state"]["lru"] is not None:
                 tag += ":lru" if op[1] in before["state"]["lru"]["dict"] else ":file"
         ctx.count(f"{kind}:{tag}")
+        if kind == "disk" and len(st["present"]) > st["len"]:
+            ctx.count("disk:more-keys-present-than-files")      # C14_disk_present_bound: the LRU answers for keys whose file is gone
         before = st
 
 
@@ -1277,6 +1215,345 @@ def preempt_search_counts(ctx, env, slot, case, slim, tag):
     return False
 
 
+# ------------------------------------------------------------------------------------------------ clear() resets every piece of state
+def first_diff(steps, msteps, fields=("o", "present", "len", "values")):
+    """(index, field) of the first difference between implementation steps and (canonicalised) model steps, or None"""
+    for i, (a, b) in enumerate(zip(steps, msteps)):
+        for f in fields:
+            if f in a and a[f] != b.get(f):
+                return i, f
+    if len(steps) != len(msteps):
+        return min(len(steps), len(msteps)), "length"
+    return None
+
+
+def leftover_state(cache, kind, cdir):
+    """what the public views of the container's state show right after clear(): a list of non-empty pieces (empty = all reset)"""
+    left = []
+    try:
+        if kind in ("lru", "hybrid", "simple") and len(cache.cache):
+            left.append(f"cache={sorted(map(repr, cache.cache))}")
+        if kind == "hybrid":
+            if len(cache.access_counts):
+                left.append(f"access_counts={dict(cache.access_counts)!r}")
+            if len(cache.computation_durations):
+                left.append(f"computation_durations={dict(cache.computation_durations)!r}")
+        if kind == "disk":
+            if getattr(cache, "with_lru_cache", False) and len(cache.lru_cache.cache):
+                left.append(f"lru_cache.cache={sorted(map(repr, cache.lru_cache.cache))}")
+            files = sorted(p.name for p in Path(cdir).glob("*")) if Path(cdir).exists() else []
+            if files:
+                left.append(f"directory={files}")
+        if len(cache):
+            left.append(f"len={len(cache)}")
+    except Exception as e:  # noqa: BLE001
+        left.append(f"reading the state raised {exc_enum(e)}")
+    return left
+
+
+def gen_clear_case(rng, shared=False):
+    kind = rng.choice(["lru", "hybrid"]) if shared else rng.choices(["lru", "hybrid", "disk", "simple"], [3, 5, 4, 1])[0]
+    nk = rng.choice([3, 4])
+    mx = rng.choice([1, 2, 2, 3])
+    case = {"kind": kind, "max": mx, "keys": list(range(nk + 2)), "stream": "clear"}
+    if kind == "simple":
+        case["max"] = None
+    if kind == "hybrid":
+        case["weights"] = list(rng.choice(WEIGHTS))
+    if kind == "disk":
+        case["lru"] = rng.choice([None, 1, 2, 128])
+        case["cloudpickle"] = rng.random() < 0.7
+    if shared:
+        case["shared"] = True
+    durs = [1, 2, 3, 5, 7, 11]
+    H = [op for op in gen_ops(rng, kind, nk, rng.randint(2, 12), durs) if op[0] != "clear"]
+    # a hit-heavy tail: access counts / recency that a sloppy clear() would leave behind
+    H += [["get", rng.randrange(nk)] for _ in range(rng.randint(0, 4))]
+    n = 500
+    E = []
+    for op in gen_ops(rng, kind, nk, rng.randint(3, 10), durs):
+        if op[0] == "put":
+            n += 1
+            op = ["put", op[1], n, op[3]]
+        if op[0] not in ("clear", "reopen"):
+            E.append(op)
+    # ... and a fill beyond max_size with fresh keys, so that the evictions after clear() are decided by the state clear() left
+    for j in range((case["max"] or 2) + 1):
+        n += 1
+        E.append(["put", nk + (j % 2), n, durs[j % len(durs)]])
+        E.append(["get", rng.randrange(nk)])
+    case["H"], case["E"] = H, E
+    return case
+
+
+def clear_request(case):
+    a = {"kind": case["kind"], "max": case.get("max"), "keys": case["keys"], "H": case["H"], "E": case["E"]}
+    if case["kind"] == "hybrid":
+        a["weights"] = case["weights"]
+    if case["kind"] == "disk":
+        a["lru"] = case.get("lru")
+    return {"m": "cache.clear_fresh", "a": a}
+
+
+def run_clear_impl(env, case, fresh_cfg):
+    """(steps of E after H;clear, leftover state right after clear, clause failures), (steps of E on a new cache, clause failures)"""
+    kind = case["kind"]
+    base = {k: case[k] for k in ("kind", "max", "keys", "weights", "lru", "cloudpickle", "shared") if k in case}
+    nh = len(case["H"]) + 1
+    # A: the ordinary runner up to and including clear(), then the leftovers, then E — all on one cache object
+    left = None
+    hooked = dict(base, ops=case["H"] + [["clear"]] + case["E"])
+    orig_probe = probe
+
+    def spy(cache, kind_, keys):
+        nonlocal left
+        pr = orig_probe(cache, kind_, keys)
+        spy.calls += 1
+        if spy.calls == nh:
+            left = leftover_state(cache, kind_, env.base / f"d{env.n}")
+        return pr
+    spy.calls = 0
+    globals()["probe"] = spy
+    try:
+        stepsA, badA = run_impl(env, hooked)
+    finally:
+        globals()["probe"] = orig_probe
+    # B: E alone on a newly constructed cache
+    fresh = dict(base, ops=case["E"])
+    if kind == "disk" and fresh_cfg is not None:
+        fresh["max"], fresh["lru"] = fresh_cfg
+    stepsB, badB = run_impl(env, fresh)
+    return (stepsA, left, badA), (stepsB, badB)
+
+
+def clear_stream(ctx, env):
+    rng = ctx.rng
+    cases = [copy.deepcopy(c) for c in CLEAR_CORPUS]
+    cases += [gen_clear_case(rng) for _ in range(ctx.n(70, 2500))]
+    cases += [gen_clear_case(rng, shared=True) for _ in range(ctx.n(3, 40))]
+    outs = ctx.lean([clear_request(c) for c in cases])
+    for case, resp in zip(cases, outs):
+        m = resp["r"]
+        kind = case["kind"]
+        slim = dict(case)
+        ctx.count(f"clear:case:{kind}{':shared' if case.get('shared') else ''}")
+        if m.get("err") is not None:
+            ctx.violation(slim, f"the model raises {m['err']} in H;clear where histories never raise", found_input=False, item="correspondence:model-raises")
+            continue
+        if not m["same"]:
+            ctx.violation(slim, "the model's answers after H;clear differ from those of a new container (extraction sanity check)",
+                          found_input=False, item=f"C14_clear_resets_{'lru' if kind == 'lru' else kind}")
+            continue
+        (stepsA, left, badA), (stepsB, badB) = run_clear_impl(env, case, m.get("fresh_cfg"))
+        nh = len(case["H"]) + 1
+        ctx.count("clear:transitions", len(stepsA) + len(stepsB))
+        populated = nh >= 2 and len(stepsA) >= nh - 1 and bool(stepsA[nh - 2].get("present"))     # something was present right before clear()
+        ctx.count(f"clear:{kind}:{'populated' if populated else 'empty'}-before-clear")
+        ctx.record(slim, populated)
+        if badA or badB:
+            which, bad = ("after H;clear", badA) if badA else ("on a new cache", badB)
+            ctx.violation(slim, f"{kind}{' shared' if case.get('shared') else ''} (clear stream, {which}): {bad[0]}", impl=(stepsA if badA else stepsB)[-3:],
+                          key=f"clear:{kind}:clause")
+            continue
+        if left:
+            ctx.violation(slim, f"{kind}: right after clear() the container still holds state: {'; '.join(left)}", found_input=False,
+                          item=f"correspondence:clear-leaves-state:{kind}", impl=left, key=f"clear:{kind}:leftover")
+            continue
+        if left is None:
+            ctx.count("clear:leftover-not-inspected")
+        afterM = [canon_mstep(st) for st in m["after"]]
+        freshM = [canon_mstep(st) for st in m["fresh"]]
+        tailA = stepsA[nh:]
+        ecase = dict(case, ops=case["E"])
+        skip = False
+        for i in range(len(afterM)):
+            if near_tie(ecase, afterM, i):
+                skip = True
+        if skip:
+            ctx.skip("clear-hybrid-near-tie")
+            continue
+        dA, dB, dAB = first_diff(tailA, afterM), first_diff(stepsB, freshM), first_diff(tailA, stepsB)
+        if dAB:
+            i, f = dAB
+            a, b = (tailA[i].get(f) if i < len(tailA) else None), (stepsB[i].get(f) if i < len(stepsB) else None)
+            ctx.violation(slim, f"{kind}{' shared' if case.get('shared') else ''}: after H; clear() the cache differs from a newly constructed one at step {i} of the "
+                          f"continuation ({case['E'][i][0] if i < len(case['E']) else '-'}): {f} is {a!r}, on the new cache {b!r}",
+                          impl={"after_clear": tailA[max(0, i - 1):i + 1], "new": stepsB[max(0, i - 1):i + 1]}, model=afterM[max(0, i - 1):i + 1], key=f"clear:{kind}:differs:{f}")
+            continue
+        for who, d, steps, ms in (("after H;clear", dA, tailA, afterM), ("on a new cache", dB, stepsB, freshM)):
+            if d:
+                i, f = d
+                if f == "present" and i < len(steps) and hybrid_tie_order(ecase, ms, i, steps[i]):
+                    ctx.violation(slim, f"hybrid (clear stream, {who}) step {i} of the continuation: the entry evicted has the lowest score but is not the "
+                                  f"first such entry in insertion order (implementation keeps {steps[i].get('present')}, model {ms[i]['present']})",
+                                  found_input=False, item="correspondence:hybrid-tie-order", impl=steps[max(0, i - 1):i + 1], model=ms[max(0, i - 1):i + 1],
+                                  key="hybrid-tie-order")
+                    break
+                ctx.violation(slim, f"{kind} (clear stream, {who}) step {i} of the continuation: {f} is {steps[i].get(f) if i < len(steps) else None!r}, "
+                              f"the policy gives {ms[i].get(f) if i < len(ms) else None!r}", impl=steps[max(0, i - 1):i + 1], model=ms[max(0, i - 1):i + 1],
+                              key=f"clear:{kind}:{f}")
+                break
+        ev = sum(1 for j in range(1, len(afterM)) if case["E"][j][0] == "put" and [k for k in afterM[j - 1]["present"] if k not in afterM[j]["present"]])
+        ctx.count(f"clear:{kind}:evictions-after-clear", ev)
+
+
+def max_size0_stream(ctx, env):
+    """max_size = 0: LRUCache refuses it (malformed_stream); HybridCache and DiskCache accept it — the model says what follows
+    (C14_hybrid_never_raises_iff / C14_hybrid_max0_put_raises: the first put raises ValueError; C14_disk_max0: nothing raises, nothing is kept)"""
+    reqs = [{"m": "cache.run", "a": {"kind": "hybrid", "max": 0, "allow0": True, "weights": [1, 1], "keys": [0], "ops": [["put", 0, 1, 1]]}},
+            {"m": "cache.run", "a": {"kind": "disk", "max": 0, "lru": None, "keys": [0, 1],
+                                     "ops": [["put", 0, 1, 0], ["has", 0], ["get", 0], ["len"], ["put", 1, 2, 0], ["put", 0, 3, 0], ["clear"], ["len"]]}}]
+    outs = ctx.lean(reqs)
+    try:
+        c = HybridCache(max_size=0, shared=False)
+        o = do_op(c, "hybrid", ["put", 0, 1, 1])
+        o2 = [do_op(c, "hybrid", ["len"]), do_op(c, "hybrid", ["has", 0])]
+    except Exception as e:  # noqa: BLE001
+        o, o2 = {"err": "constructor:" + exc_enum(e)}, None
+    want = outs[0]["r"]["err"]
+    ctx.count(f"max_size0:hybrid:put:{o['err'] if isinstance(o, dict) else 'accepted'}")
+    if (o["err"] if isinstance(o, dict) else None) != want or o2 not in (None, [["nat", 0], ["bool", False]]):
+        ctx.violation({"malformed": "HybridCache(max_size=0).put"}, f"HybridCache(max_size=0): put answered {o} (then len/in: {o2}), the model raises {want}",
+                      found_input=False, item="C14_hybrid_never_raises_iff", impl=o, model=want)
+    env.n += 1
+    cdir = env.base / f"d{env.n}"
+    try:
+        c = DiskCache(cdir, max_size=0, with_lru_cache=False)
+        got = []
+        for op in reqs[1]["a"]["ops"]:
+            got.append(do_op(c, "disk", op))
+            if op[0] == "put":
+                env.spacer.after_write(cdir)
+    except Exception as e:  # noqa: BLE001
+        got = [{"err": "constructor:" + exc_enum(e)}]
+    finally:
+        shutil.rmtree(cdir, ignore_errors=True)
+    want = [canon_mstep(st)["o"] for st in outs[1]["r"]["steps"]]
+    ctx.count(f"max_size0:disk:{'as-model' if got == want else 'differs'}")
+    if got != want:
+        ctx.violation({"malformed": "DiskCache(max_size=0, with_lru_cache=False)", "ops": reqs[1]["a"]["ops"]},
+                      f"DiskCache(max_size=0): answers {got}, the model gives {want}", found_input=False,
+                      item="C14_disk_max0", impl=got, model=want)
+
+
+CLEAR_CORPUS = [
+    # access counts that a clear() forgetting `_access_counts` would leave behind: key 0 hit three times, then cleared; afterwards 0 is
+    # the newest entry with count 1 and the shortest duration -> it is the one to leave when key 2 arrives
+    {"kind": "hybrid", "max": 2, "weights": [1, 1], "keys": [0, 1, 2, 3], "stream": "clear",
+     "H": [["put", 0, 101, 5], ["get", 0], ["get", 0], ["get", 0], ["put", 1, 102, 5]],
+     "E": [["put", 1, 501, 3], ["put", 0, 502, 1], ["put", 2, 503, 2], ["get", 0], ["get", 1], ["put", 3, 504, 2], ["get", 2]]},
+    # durations that a clear() forgetting `_computation_durations` would leave behind
+    {"kind": "hybrid", "max": 2, "weights": [0, 1], "keys": [0, 1, 2, 3], "stream": "clear",
+     "H": [["put", 0, 101, 11], ["put", 1, 102, 7]],
+     "E": [["put", 2, 501, 1], ["put", 3, 502, 2], ["put", 0, 503, 3], ["get", 2], ["get", 3]]},
+    # LRU recency
+    {"kind": "lru", "max": 2, "keys": [0, 1, 2, 3], "stream": "clear",
+     "H": [["put", 0, 101, 0], ["put", 1, 102, 0], ["get", 0]],
+     "E": [["put", 1, 501, 0], ["put", 0, 502, 0], ["put", 2, 503, 0], ["get", 1], ["get", 0]]},
+    # DiskCache: files and in-memory LRU; a reopen in H changes the max_size / LRU size the new cache is built with
+    {"kind": "disk", "max": 3, "lru": 2, "keys": [0, 1, 2, 3], "stream": "clear",
+     "H": [["put", 0, 101, 0], ["put", 1, 102, 0], ["put", 2, 103, 0], ["reopen", 2, 1], ["get", 1]],
+     "E": [["get", 1], ["put", 0, 501, 0], ["put", 3, 502, 0], ["put", 1, 503, 0], ["len"], ["get", 0], ["get", 3]]},
+    {"kind": "disk", "max": 1, "lru": 2, "keys": [0, 1, 2], "stream": "clear",
+     "H": [["put", 0, 101, 0], ["put", 1, 102, 0]],
+     "E": [["has", 0], ["get", 0], ["put", 2, 501, 0], ["has", 0], ["has", 1], ["len"]]},
+]
+
+
+# ------------------------------------------------------------------------------------------------ accesses inside the lock (LRUCache)
+def access_stream(ctx, env):
+    """`lruBody` (the statement-by-statement model of LRUCache's critical sections that C14_shared_lru is about) against the source
+    by execution: the container accesses the real LRUCache makes inside `with self._cache_lock:` for an operation P after a history H,
+    recorded by the proxies of c14_preempt.py, equal `PF.Cache.Shared.lruAccesses` (driver entry cache.accesses)."""
+    rng = ctx.rng
+    todo = []
+    for mx in (1, 2, 3):
+        for H in preempt_histories(mx) + [[["put", 0, 101, 1], ["put", 0, 102, 1]], [["put", 0, 101, 1], ["clear"]]]:
+            for P in preempt_ops():
+                todo.append((mx, H, _with_value(P, 201, 2), False))
+    for _ in range(ctx.n(60, 3000)):
+        mx, nk = rng.choice([1, 2, 3]), rng.choice([3, 4])
+        H = [op for op in gen_ops(rng, "lru", nk, rng.randint(0, 10), [1])][:-nk or None]
+        P = _with_value(rng.choice(preempt_ops()), 900, 1)
+        todo.append((mx, H, P, False))
+    for mx, H, P in ((2, [["put", 0, 101, 1], ["put", 1, 102, 1]], ["put", 2, 201, 2]), (2, [["put", 0, 101, 1]], ["get", 0]), (1, [["put", 0, 101, 1]], ["clear"])):
+        todo.append((mx, H, P, True))                     # the same on manager-backed containers (shared=True)
+    # HybridCache: its critical sections are taken whole in the model (Body.ofSem), so only the SHAPE the linearisability theorem assumes is
+    # checked on the implementation: one critical section per operation, no container access outside it
+    for mx in (1, 2):
+        for H in preempt_histories(mx):
+            for P in preempt_ops():
+                case = {"stream": "accesses", "kind": "hybrid", "max": mx, "weights": [1, 1], "H": H, "P": _with_value(P, 201, 2), "shared": False}
+                got = impl_accesses(case)
+                if got.get("skip") or got.get("err"):
+                    ctx.count(f"accesses:hybrid:{got.get('skip') or 'raised'}")
+                    if got.get("err"):
+                        ctx.violation(case, f"hybrid: {got['err']}", key="accesses:raised")
+                    continue
+                ctx.count(f"accesses:hybrid:P={P[0]}:sections{got['sections']}:outside{len(got['outside'])}")
+                if got["outside"] or got["sections"] != 1:
+                    ctx.violation(case, f"HybridCache.{P[0]} enters {got['sections']} critical sections and touches {got['outside']} outside them (the process "
+                                  "model assumes one critical section holding every container access)", found_input=False,
+                                  item="correspondence:hybrid-critical-section-shape", impl=got, key=f"accesses:hybrid-shape:{P[0]}")
+    outs = ctx.lean([{"m": "cache.accesses", "a": {"max": mx, "H": H, "P": P}} for mx, H, P, _ in todo])
+    for (mx, H, P, shared), resp in zip(todo, outs):
+        m = resp["r"]
+        case = {"stream": "accesses", "kind": "lru", "max": mx, "H": H, "P": P, "shared": shared}
+        if m.get("err") is not None or not m.get("atomic_ok"):
+            ctx.violation(case, f"the micro-steps of lruBody run in one go differ from LRU.step (err={m.get('err')}; extraction sanity check)", found_input=False,
+                          item="C14_shared_lru")
+            continue
+        got = impl_accesses(case)
+        ctx.count(f"accesses:lru{':shared' if shared else ''}:P={P[0]}:{len(m['accesses'])}-accesses")
+        ctx.record(case, len(m["accesses"]) > 1)
+        if got.get("skip"):
+            ctx.count(f"accesses:{got['skip']}")
+            continue
+        if got.get("err"):
+            ctx.violation(case, f"lru: {got['err']}", key="accesses:raised")
+            continue
+        if got["outside"]:
+            ctx.violation(case, f"LRUCache.{P[0]} touches a shared container outside its critical section: {got['outside']}", found_input=False,
+                          item="correspondence:lru-access-outside-lock", impl=got, model=m["accesses"], key=f"accesses:outside:{P[0]}")
+        elif got["sections"] != 1:
+            ctx.violation(case, f"LRUCache.{P[0]} enters {got['sections']} critical sections (the process model assumes one per operation)", found_input=False,
+                          item="correspondence:lru-critical-sections", impl=got, model=m["accesses"], key=f"accesses:sections:{P[0]}")
+        elif got["inside"] != m["accesses"]:
+            ctx.violation(case, f"LRUCache.{P[0]} makes the container accesses {got['inside']} inside the lock, lruBody's labelled micro-steps give {m['accesses']}",
+                          found_input=False, item="correspondence:lru-critical-section-accesses", impl=got, model=m["accesses"], key=f"accesses:differs:{P[0]}")
+
+
+def impl_accesses(case):
+    """run H on a new LRUCache, then P with the lock and the containers of the object wrapped: what was touched, in order"""
+    cache = None
+    try:
+        kind = case.get("kind", "lru")
+        cache = make_cache({"kind": kind, "max": case["max"], "weights": case.get("weights"), "shared": case["shared"], "cloudpickle": True}, None)
+        for op in case["H"]:
+            o = do_op(cache, kind, op)
+            if isinstance(o, dict):
+                return {"err": f"set-up {op[0]} raised {o['err']}"}
+        sched = pre.Sched(target=None, action=None)
+        saved, missing = pre.install(cache, sched)
+        if saved is None:
+            return {"skip": "no-lock-attr"}
+        if "_cache_dict" in missing or ("_cache_queue" in missing and kind == "lru"):
+            pre.uninstall(cache, saved)
+            return {"skip": "no-container-attr"}
+        try:
+            o = do_op(cache, kind, case["P"])
+        finally:
+            pre.uninstall(cache, saved)
+        if isinstance(o, dict):
+            return {"err": f"P = {case['P'][0]} raised {o['err']}"}
+        return {"inside": [w for c, w in sched.trace if c == "in" and w != "release"],
+                "outside": [w for c, w in sched.trace if c == "out" and w not in ("acquire", "released")], "sections": sched.acquires}
+    except Exception as e:  # noqa: BLE001
+        return {"err": f"instrumented run raised {exc_enum(e)}"}
+    finally:
+        cache = None
+
+
 # ------------------------------------------------------------------------------------------------ corpus
 @framework.finding_matcher("c14_disk_put_clear_window")
 def _kf_disk_put_clear(case, params, impl, model):
@@ -1331,6 +1608,10 @@ CORPUS = [
      "ops": [["put", 0, 1, 0], ["put", 1, 2, 0], ["put", 2, 3, 0], ["reopen", 1, 1], ["put", 3, 4, 0], ["len"], ["get", 2], ["get", 3]]},
     # DiskCache through its LRU: re-put of a resident key (DF-01 reached through DiskCache.put)
     {"kind": "disk", "max": 2, "lru": 1, "keys": [0, 1], "ops": [["put", 0, 1, 0], ["put", 0, 2, 0], ["get", 0], ["put", 1, 3, 0], ["get", 0]]},
+    # C14_disk_present_exceeds_len: max_size 1 behind an LRU of 2 — the key whose file was unlinked stays present through the LRU
+    # (len 1, two keys present); a DiskCache reopened on the directory does not know it
+    {"kind": "disk", "max": 1, "lru": 2, "keys": [0, 1],
+     "ops": [["put", 0, 1, 0], ["put", 1, 2, 0], ["has", 0], ["has", 1], ["get", 0], ["len"], ["reopen", 1, 2], ["has", 0], ["get", 0], ["has", 1]]},
     # hybrid: first minimum in insertion order; a hit protects an entry
     {"kind": "hybrid", "max": 2, "weights": [1, 1], "keys": [0, 1, 2], "ops": [["put", 0, 1, 2], ["put", 1, 2, 2], ["get", 0], ["put", 2, 3, 2], ["has", 0], ["has", 1]]},
 ]
@@ -1353,10 +1634,15 @@ def run(ctx):
         check_cases(ctx, env, cases)
         t1 = time.time()
         malformed_stream(ctx, env)
+        max_size0_stream(ctx, env)
+        tc = time.time()
+        clear_stream(ctx, env)
+        access_stream(ctx, env)
+        tc = time.time() - tc
         preempt_stream(ctx, env)
         t2 = time.time()
         soak(ctx, env)
-        ctx.notes.append(f"wall split: histories {t1 - t0:.0f} s, malformed + preemption stream {t2 - t1:.0f} s, soak {time.time() - t2:.0f} s")
+        ctx.notes.append(f"wall split: histories {t1 - t0:.0f} s, malformed + preemption stream {t2 - t1:.0f} s, soak {time.time() - t2:.0f} s (max_size0 + clear + accesses streams {tc:.0f} s of the second part)")
         ctx.count("disk:ctime-spacing-spins", env.spacer.spins)
     finally:
         env.close()
@@ -1392,6 +1678,31 @@ def replay(ctx, case):
     if case.get("stream") == "preempt":
         try:
             return replay_preempt(ctx, env, case)
+        finally:
+            env.close()
+    if case.get("stream") == "accesses":
+        try:
+            if case.get("kind") == "hybrid":
+                print("implementation:", impl_accesses(case))
+                return None
+            print("model:", ctx.lean([{"m": "cache.accesses", "a": {"max": case["max"], "H": case["H"], "P": case["P"]}}])[0]["r"])
+            print("implementation:", impl_accesses(case))
+            return None
+        finally:
+            env.close()
+    if case.get("stream") == "clear":
+        try:
+            m = ctx.lean([clear_request(case)])[0]["r"]
+            (stepsA, left, badA), (stepsB, badB) = run_clear_impl(env, case, m.get("fresh_cfg"))
+            nh = len(case["H"]) + 1
+            print(f"{case['kind']}: H = {case['H']}; clear(); then E, next to E on a newly constructed cache {m.get('fresh_cfg') or ''}")
+            print("state left right after clear():", left, "  failed clauses:", badA, badB)
+            for i, op in enumerate(case["E"]):
+                pick = lambda st: {k: st.get(k) for k in ("o", "present", "len", "values") if k in st}  # noqa: E731
+                print("  ", op, "-> after clear:", pick(stepsA[nh + i]) if nh + i < len(stepsA) else None, "| new:", pick(stepsB[i]) if i < len(stepsB) else None,
+                      "| model:", pick(canon_mstep(m["after"][i])) if i < len(m["after"]) else None)
+            print("model: same =", m["same"])
+            return None
         finally:
             env.close()
     try:
